@@ -12,6 +12,8 @@ pub struct UnmarshalContext<'fds, 'buf> {
     pub byteorder: ByteOrder,
     fds: &'fds [crate::wire::UnixFd],
     cursor: Cursor<'buf>,
+    /// how many containers have been entered to get to the current position
+    depth: usize,
 }
 
 impl<'fds, 'buf> UnmarshalContext<'fds, 'buf> {
@@ -25,7 +27,22 @@ impl<'fds, 'buf> UnmarshalContext<'fds, 'buf> {
             fds,
             byteorder,
             cursor: Cursor { buf, offset },
+            depth: 0,
         }
+    }
+
+    /// Call when starting to unmarshal the contents of a container. Fails if that exceeds the maximum nesting depth.
+    /// Must be paired with `leave_container`.
+    pub fn enter_container(&mut self) -> UnmarshalResult<()> {
+        if self.depth >= crate::wire::MAX_NESTING_DEPTH {
+            return Err(UnmarshalError::NestingTooDeep);
+        }
+        self.depth += 1;
+        Ok(())
+    }
+
+    pub fn leave_container(&mut self) {
+        self.depth -= 1;
     }
 
     /// Splits off a context for the next `length` bytes. The new context keeps the absolute offset
@@ -35,28 +52,30 @@ impl<'fds, 'buf> UnmarshalContext<'fds, 'buf> {
         let start = self.cursor.offset;
         self.read_raw(length)?;
         let region = &self.cursor.buf[..start + length];
-        Ok(UnmarshalContext::new(
-            self.fds,
-            self.byteorder,
-            region,
-            start,
-        ))
+        let mut sub = UnmarshalContext::new(self.fds, self.byteorder, region, start);
+        sub.depth = self.depth;
+        Ok(sub)
     }
 
-    /// Validates the value with the signature `sig` that starts at the current position and splits off a
+    /// Validates the value of a variant with the signature `sig` that starts at the current position and splits off a
     /// context that covers exactly this value.
     pub fn sub_context_for_value(
         &mut self,
         sig: &crate::signature::Type,
     ) -> UnmarshalResult<UnmarshalContext<'fds, 'buf>> {
-        let val_bytes = crate::wire::validate_raw::validate_marshalled(
+        // the value is nested in the variant
+        self.enter_container()?;
+        let res = crate::wire::validate_raw::validate_marshalled_at_depth(
             self.byteorder,
             self.cursor.offset,
             self.cursor.buf,
             sig,
+            self.depth,
         )
-        .map_err(|e| e.1)?;
-        self.sub_context(val_bytes)
+        .map_err(|e| e.1)
+        .and_then(|val_bytes| self.sub_context(val_bytes));
+        self.leave_container();
+        res
     }
 
     pub fn align_to(&mut self, alignment: usize) -> Result<usize, UnmarshalError> {
@@ -209,9 +228,9 @@ impl<'buf> Cursor<'buf> {
 
     pub fn read_u8_slice(&mut self, byteorder: ByteOrder) -> UnmarshalResult<&'buf [u8]> {
         self.align_to(4)?;
-        let bytes_in_array = self.read_u32(byteorder)?;
+        let bytes_in_array = crate::wire::util::check_array_len(self.read_u32(byteorder)?)?;
 
-        let elements = self.read_raw(bytes_in_array as usize)?;
+        let elements = self.read_raw(bytes_in_array)?;
 
         Ok(elements)
     }
